@@ -126,6 +126,7 @@ func replay(in *core.Lines, args []string, seed int64, sum *core.Summary) error 
 	sum.Count("either_returned", st.eitherOK)
 	sum.Count("either_panicked", st.eitherPan)
 	sum.Count("no_expectation", st.unspec)
+	sum.Count("nil_operand_workspace_queries", st.nilQueries)
 	sum.Count("distinct_gonum_routines", len(st.routines))
 	sum.Count("sole_clause_pairs_hit", len(st.sole))
 	names := make([]string, 0, len(st.routines))
